@@ -19,7 +19,8 @@ Opt == {"remove_pass", "remove_literal_statements", "combine_imports", "ann_vari
 
 \* ---- alphabet
 Literals == {<<"litnum">>, <<"litstr">>, <<"litbytes">>, <<"litnone">>}
-DebugTruthy == {<<"dbg">>, <<"dbg_is">>, <<"dbg_isnot">>, <<"dbg_eq">>}
+\* dbg_chain_noelse: `if __debug__: ... elif __debug__ is True: ...` - a removable test whose else branch is again a removable test without an else branch
+DebugTruthy == {<<"dbg">>, <<"dbg_is">>, <<"dbg_isnot">>, <<"dbg_eq">>, <<"dbg_chain_noelse">>}
 DebugOther  == {<<"notdbg">>, <<"dbg_isfalse">>, <<"x_is_true">>, <<"x_eq_true">>, <<"true_is_dbg">>}
 Returns == {<<"retnone">>, <<"retbare">>, <<"retval">>}
 \* statements the -O options remove that also BIND a name (zq), and statements that look zq up.  The interpreter's -O mode drops the
@@ -37,7 +38,7 @@ Declarers == {<<"dbg_global">>}
 KindMakers == {<<"dbg_yield">>}
 ZqWriters == {<<"set_zq">>}
 Symbols == {<<"pass">>, <<"ell">>, <<"imp", "a">>, <<"imp", "b">>, <<"from", "os", "x">>, <<"from", "os", "y">>, <<"from", "sys", "z">>,
-            <<"assert">>, <<"dbg_else">>, <<"dbg_elif">>, <<"annval">>, <<"annnoval">>,
+            <<"assert">>, <<"dbg_else">>, <<"dbg_elif">>, <<"dbg_chain">>, <<"annval">>, <<"annnoval">>,
             <<"raise0">>, <<"raiseargs">>, <<"raisefrom">>, <<"raiseuser">>, <<"classobj">>, <<"other">>, <<"other2">>}
            \cup Literals \cup DebugTruthy \cup DebugOther \cup Returns \cup Binders \cup ZqUsers \cup Declarers \cup ZqWriters \cup {<<"ann_zq">>} \cup KindMakers
 
@@ -113,6 +114,8 @@ Steps(o, c, e, blk) ==
       \cup (IF "remove_debug" \in o /\ blk[i] = <<"dbg_global">> /\ DeclKept(c, blk) THEN {RemoveAt(blk, i)} ELSE {})
       \cup (IF "remove_debug" \in o /\ blk[i] = <<"dbg_else">> THEN {ReplaceAt(blk, i, <<"nodbg">>)} ELSE {})        \* what -O runs
       \cup (IF "remove_debug" \in o /\ blk[i] = <<"dbg_elif">> THEN {ReplaceAt(blk, i, <<"elif_if">>)} ELSE {})
+      \* `if __debug__: A` / `elif __debug__ is True: B` / `else: C` : -O runs C
+      \cup (IF "remove_debug" \in o /\ blk[i] = <<"dbg_chain">> THEN {ReplaceAt(blk, i, <<"nodbg">>)} ELSE {})
       ) : i \in DOMAIN blk }
 
 \* the non-empty rule: an emptied suite holds a single `0`; only a module body may become empty
@@ -156,7 +159,7 @@ M_Asserts(o, c, blk) == IF "remove_asserts" \in o THEN NonEmptyM(c, Filter(blk, 
 M_Debug(o, c, blk) ==
     IF "remove_debug" \notin o THEN blk
     ELSE NonEmptyM(c, Map(Filter(blk, LAMBDA st : st \notin DebugTruthy \cup {<<"dbg_bind">>, <<"dbg_global">>, <<"dbg_yield">>}),
-                          LAMBDA st : IF st = <<"dbg_else">> THEN <<"nodbg">> ELSE IF st = <<"dbg_elif">> THEN <<"elif_if">> ELSE st))
+                          LAMBDA st : IF st \in {<<"dbg_else">>, <<"dbg_chain">>} THEN <<"nodbg">> ELSE IF st = <<"dbg_elif">> THEN <<"elif_if">> ELSE st))
 M_Return(o, c, blk) ==
     IF "remove_explicit_return_none" \notin o THEN blk
     ELSE LET b1 == Map(blk, LAMBDA st : IF st = <<"retnone">> THEN <<"retbare">> ELSE st)
